@@ -6,13 +6,48 @@
 #include <stdio.h>
 #include <stdlib.h>
 #include <string.h>
+#include <math.h>
 #include "rebound.h"
+static double OMEGA = 1.0;
+static void osc_rhs(struct reb_ode* const ode, double* const yDot, const double* const y, const double t){
+    (void)ode; (void)t;
+    yDot[0] = y[1]; yDot[1] = -OMEGA*OMEGA*y[0];
+}
+/* "ode:<integrator>"  o1 = 10*omega*dt, o2 = SABA type, o3 = number of N-body steps: a harmonic oscillator as user ODE */
+static int ode_mode(const char* integ, int o1, int o2, int o3, double dt){
+    struct reb_simulation* r = reb_simulation_create();
+    struct reb_particle p = {0};
+    p.m = 1.0; reb_simulation_add(r, p);
+    p.m = 1e-3; p.x = 1.0; p.y = 0.02; p.z = 0.01; p.vx = -0.01; p.vy = 1.0; p.vz = 0.02; reb_simulation_add(r, p);
+    p.m = 5e-4; p.x = -0.1; p.y = 2.3; p.z = -0.03; p.vx = -0.65; p.vy = -0.02; p.vz = 0.01; reb_simulation_add(r, p);
+    reb_simulation_move_to_com(r);
+    r->dt = dt;
+    if (!strcmp(integ, "whfast")) r->integrator = REB_INTEGRATOR_WHFAST;
+    else if (!strcmp(integ, "leapfrog")) r->integrator = REB_INTEGRATOR_LEAPFROG;
+    else if (!strcmp(integ, "saba")){ r->integrator = REB_INTEGRATOR_SABA; r->ri_saba.type = o2; }
+    else if (!strcmp(integ, "ias15")) r->integrator = REB_INTEGRATOR_IAS15;
+    else if (!strcmp(integ, "mercurius")) r->integrator = REB_INTEGRATOR_MERCURIUS;
+    else if (!strcmp(integ, "trace")) r->integrator = REB_INTEGRATOR_TRACE;
+    else if (!strcmp(integ, "eos")) r->integrator = REB_INTEGRATOR_EOS;
+    else if (!strcmp(integ, "janus")){ r->integrator = REB_INTEGRATOR_JANUS; r->ri_janus.order = 4; r->ri_janus.scale_pos = 1e-14; r->ri_janus.scale_vel = 1e-14; }
+    else return 2;
+    OMEGA = 0.1*o1/fabs(dt);
+    r->ri_bs.eps_rel = 1e-8; r->ri_bs.eps_abs = 1e-8;
+    struct reb_ode* ode = reb_ode_create(r, 2);
+    ode->derivatives = osc_rhs;
+    ode->y[0] = 1.0; ode->y[1] = 0.0;
+    reb_simulation_steps(r, o3);
+    fprintf(stderr, "STATE %.17g %.17g %.17g\n", ode->y[0], ode->y[1], r->t);
+    reb_simulation_free(r);
+    return 0;
+}
 int main(int argc, char** argv){
     if (argc < 7) return 2;
     const char* integ = argv[1];
     int o1 = (int)strtol(argv[2], NULL, 0), o2 = (int)strtol(argv[3], NULL, 0), o3 = (int)strtol(argv[4], NULL, 0);
     int unsync = strcmp(argv[5], "unsync") == 0;
     double dt = atof(argv[6]);
+    if (!strncmp(integ, "ode:", 4)) return ode_mode(integ + 4, o1, o2, o3, dt);
     struct reb_simulation* r = reb_simulation_create();
     struct reb_particle p = {0};
     p.m = 1.0; reb_simulation_add(r, p);
